@@ -1726,6 +1726,27 @@ def unit_parsetop(inj, scratch):
     return dict(functions=[r], dropped=[d])
 
 
+def unit_aggrow(inj, scratch):
+    """list_search_results: the `else { .. }` block of `if !self.query.grouping_fields.is_empty() { .. } else { .. }` (ungrouped aggregate output), verbatim."""
+    frag_begin(inj)
+    s = src('src/searcher.rs', scratch)
+    it = s.fn('list_search_results', impl='Searcher')
+    g = s.block_after(r'if\s+!self\.query\.grouping_fields\.is_empty\(\)', s.body_span(it), what='list_search_results: if !self.query.grouping_fields.is_empty()')
+    k = g[2] + 1
+    m = re.match(r'\s*else\s*\{', s.mask[k:])
+    if not m:
+        raise AnchorLost('list_search_results: the grouped branch is not followed by `else {`')
+    o = k + m.end() - 1
+    body = dedent(s.text[o:s.match_close(o) + 1])
+    text = ('pub mod aggrow {\n' + H('frag_aggrow_prelude.rs') + '\nimpl Searcher {\n// ---- verbatim: the ungrouped branch (`else {..}`) of the aggregate output in list_search_results ----\n'
+            'pub fn frag_aggregate_row(&mut self) -> io::Result<()> {\n' + body + '\nOk(())\n}\n}\n' + H('frag_aggrow.kani.rs') + '\n}\n')
+    inj.new_file(FRAG_FILE, text)
+    r, d = frag_record('aggrow::Searcher::frag_aggregate_row', 'src/searcher.rs', 'fn list_search_results / the `else {..}` block that follows `if !self.query.grouping_fields.is_empty() {..}` (verbatim, as a method of a shim Searcher)',
+                       body, body, ['texts -> one-byte tokens; format!("{}", v) -> the text of v; write!(stdout(), "{}", String::from(buf)) -> recording stand-in; get_column_expr_value -> stand-in recording its entry / partition arguments'],
+                       'the aggregate evaluation itself (C07.sum / mean / variance), the grouped branch, the row formatters (C09)')
+    return dict(functions=[r], dropped=[d])
+
+
 def unit_rowflow(inj, scratch):
     frag_begin(inj)
     s = src('src/searcher.rs', scratch)
